@@ -315,7 +315,8 @@ def strat_case(draw):
             elif m == 'save':
                 args += draw(st.sampled_from([['save'], ['save', '@DIR'], ['save', '@SAVE.kthlist'], ['save', 'gml', '@SAVE.x'],
                                               ['save', '@SAVE.zzz'], ['save', 'matrix', '@SAVE.m'], ['save', '@SAVE.gml', 'save', '@SAVE.dot'],
-                                              ['save', '@NODIR/g.gml'], ['save', 'kthlist', '@NODIR/g'], ['save', '@NODIR/g.dot'], ['save', 'matrix', '@NODIR/g.matrix']]))
+                                              ['save', '@NODIR/g.gml'], ['save', 'kthlist', '@NODIR/g'], ['save', '@NODIR/g.dot'], ['save', 'matrix', '@NODIR/g.matrix'],
+                                              ['save', 'dot', '-'], ['save', 'kthlist', '-'], ['save', 'gml', '-'], ['save', 'matrix', '-'], ['save', '-']]))
             elif m == 'swap':
                 idx = [i for i, t in enumerate(args) if t in ('gnp', 'gnm', 'gnd', 'complete', 'grid')]
                 if idx:
@@ -686,6 +687,11 @@ def enum_hostile(tier):
             if tier == 'quick' and (N + k) % 2 and k >= 3:
                 continue
             yield {'tool': tool, 'args': out + [['or', str(N), '0'], ['and', str(N), '0'], ['or', '0', str(N)]][(N + k) % 3], 'stdin': None, 'rseed': 0, 'sized': True}
+    # `save <format> -`: a dash is a file name like any other here; whatever happens, the standard output holds the formula only
+    for cmd in (['kcolor', '3', 'gnp', '5', '.5'], ['php', 'glrp', '3', '3', '.5'], ['peb', 'pyramid', '2'], ['tseitin', 'first', 'grid', '2', '2']):
+        for fmt in (['dot'], ['kthlist'], ['gml'], ['matrix'], ['dimacs'], []):
+            for tool in ('cnfgen', 'pbgen'):
+                yield {'tool': tool, 'args': ['--seed', '3'] + cmd + ['save'] + fmt + ['-'], 'stdin': None, 'rseed': 0}
     # output files whose whole name is a format word (no extension: the default format applies)
     for name in ('opb', 'tex', 'latex', 'dimacs', 'cnf', 'OPB', 'a.opb.cnf', 'x.tex.txt'):
         for tool, cmd in (('cnfgen', ['php', '3', '2']), ('cnfgen', ['-q', 'op', '3']), ('pbgen', ['php', '3', '2']), ('cnfgen', ['-of', 'opb', 'php', '2', '1'])):
@@ -817,7 +823,7 @@ TOOLS = ['cnfgen', 'pbgen', 'cnfshuffle', 'kthlist2pebbling']
 
 SUBCHECKS = [
     SubCheck('hostile', run_case, strategy=strat_case, enumerate_cases=enum_hostile, quick=3000, thorough=150000,
-             rule="enumerated: formulas with 0..40 variables printed by both tools in every format; -o files whose whole name is a format word (opb, tex, latex, dimacs, ...); twenty graph slots (every graph-taking sub-command, both graphs of iso -e and subgraph, the graph of -T xorcomp/majcomp) x seven kinds of bad file and four good files under unusual names x format keyword (none, the right one, gml) x a modifier, both tools (quick: a third); generated: valid command lines of every sub-command (graph constructions, numeric forms, -T chains, every output option, -o into fresh files, into files that already hold a longer text, and into directories) with 0..3 mutations: numbers replaced by -1/0/1/2/3/5/6/x/1.5/empty, tokens deleted/duplicated, unknown options, graph constructions replaced by missing/directory/empty/garbage/wrong-format/binary/unreadable files with every format keyword, or by a good file of the right graph type whose name is legal but unusual (braces and format fields, percent signs, $, blanks, quotes, glob characters, a tab, a backslash - 19 names), 'save' into bad places (a directory, a directory that does not exist, unknown extensions), constructions of the wrong graph type, extra tokens, -h anywhere; cnfshuffle and kthlist2pebbling with option soups and good/garbage stdin; oracle: exactly one of {exit 0 + complete document accepted by the strict reader of the format, help + exit 0, non-zero exit + empty stdout + non-empty stderr with every line starting with the comment marker}; never an escaping exception or traceback; non-trivial: the argv names a sub-command",
+             rule="enumerated: formulas with 0..40 variables printed by both tools in every format; -o files whose whole name is a format word (opb, tex, latex, dimacs, ...); `save [<format>] -` on four graph commands; twenty graph slots (every graph-taking sub-command, both graphs of iso -e and subgraph, the graph of -T xorcomp/majcomp) x seven kinds of bad file and four good files under unusual names x format keyword (none, the right one, gml) x a modifier, both tools (quick: a third); generated: valid command lines of every sub-command (graph constructions, numeric forms, -T chains, every output option, -o into fresh files, into files that already hold a longer text, and into directories) with 0..3 mutations: numbers replaced by -1/0/1/2/3/5/6/x/1.5/empty, tokens deleted/duplicated, unknown options, graph constructions replaced by missing/directory/empty/garbage/wrong-format/binary/unreadable files with every format keyword, or by a good file of the right graph type whose name is legal but unusual (braces and format fields, percent signs, $, blanks, quotes, glob characters, a tab, a backslash - 19 names), 'save' into bad places (a directory, a directory that does not exist, unknown extensions), constructions of the wrong graph type, extra tokens, -h anywhere; cnfshuffle and kthlist2pebbling with option soups and good/garbage stdin; oracle: exactly one of {exit 0 + complete document accepted by the strict reader of the format, help + exit 0, non-zero exit + empty stdout + non-empty stderr with every line starting with the comment marker}; never an escaping exception or traceback; non-trivial: the argv names a sub-command",
              required_labels=TOOLS + ['success', 'clean-error', 'help', 'bad-file', 'directory-argument', 'good-file-unusual-name-used', 'good-file-unusual-name-with-modifier']),
     SubCheck('subprocess', run_subprocess_case, strategy=strat_case, enumerate_cases=enum_subprocess, quick=32, thorough=2500,
              rule="the same generator, each command line run as a real process; enumerated: commands that read a formula or a graph from the standard input (every format keyword, and none) fed through a pipe with good and with malformed text (python -c 'from <tool module> import main; main()') and compared with the in-process verdict",
